@@ -6,6 +6,16 @@ func register(c *PropConfig) { propConfigs[c.ID] = c }
 
 func init() {
 	register(&PropConfig{
+		ID:       "C18",
+		Replay:   replayC18,
+		Level:    "other",
+		Packages: []string{"./lsp/jsonrpc2"},
+		Assume: []string{
+			"partial claim: framing obligations only. Not decided by this technique: losslessness of json.Marshal/DecodeMessage, call/response matching, cancellation, absence of hangs (schedules and liveness)",
+			"bufio.Reader / io.ReadFull / strconv.ParseInt / strings.TrimSpace behave as their models state; chunking of the byte stream is hidden behind the bufio.Reader contract",
+		},
+	})
+	register(&PropConfig{
 		ID:       "C11",
 		Replay:   replayC11,
 		Packages: []string{"."},
